@@ -151,6 +151,7 @@ def probe(z3, compare, prog, A, ma, sp, seed, tries=3, timeout_ms=8000):
     for t, e in ma:
         groups.setdefault(t, []).append(e)
     seen = set()
+    has_periodic = any(head(op) == 'ONewConstraint' and head(op[3]) == 'CPeriodicUnavailable' for op in prog)
     for k in range(tries):
         ssp.push()
         if k > 0 and tasks:
@@ -172,6 +173,11 @@ def probe(z3, compare, prog, A, ma, sp, seed, tries=3, timeout_ms=8000):
         pins = schedule_pins(iv, bv)
         # a busy interval that ends before it starts (delay_in + early_out beyond the duration: finding F26) is not a schedule
         if any(k.endswith('_start') and '_busy_' in k and pins.get(k[:-6] + '_end', v) < v for k, v in pins.items()):
+            continue
+        # a zero-length busy interval at a non-negative instant (zero-duration task, dynamic worker present for an instant): the
+        # periodic encoding treats the instant as busy, Spec.per_free only speaks of intervals of positive length -- not a
+        # schedule on which the two can be compared
+        if has_periodic and any(k.endswith('_start') and '_busy_' in k and v >= 0 and pins.get(k[:-6] + '_end') == v for k, v in pins.items()):
             continue
         sig = tuple(sorted(pins.items()))
         if sig in seen:
